@@ -1737,14 +1737,16 @@ bool QXmppMessage::parseExtension(const QDomElement &element, QXmpp::SceMode sce
         if (checkElement(element, u"html", ns_xhtml_im)) {
             QDomElement bodyElement = element.firstChildElement(u"body"_s);
             if (!bodyElement.isNull() && bodyElement.namespaceURI() == ns_xhtml) {
+                // save the content of the body element (not the element itself: cutting its tags
+                // out of the saved text would also hit nested <body/> elements and text)
                 QTextStream stream(&d->xhtml, QIODevice::WriteOnly);
-                bodyElement.save(stream, 0);
+                for (auto child = bodyElement.firstChild(); !child.isNull(); child = child.nextSibling()) {
+                    child.save(stream, 0);
+                }
 
-                d->xhtml = d->xhtml.mid(d->xhtml.indexOf(u'>') + 1);
                 d->xhtml.replace(
                     u" xmlns=\"http://www.w3.org/1999/xhtml\""_s,
                     QString());
-                d->xhtml.replace(u"</body>"_s, QString());
                 d->xhtml = d->xhtml.trimmed();
             }
             return true;
